@@ -105,8 +105,8 @@ let opt_bytes = function Sexp.A "none" -> None | x -> Some (bytes_of_sx x)
 (* (ver cid uflag pflag user pass am ad) *)
 let connect_of_sx x = match Sexp.list x with
   | [v; cid; uf; pf; u; p; am; ad] ->
-    { cn_version = n_of_sx v; cn_cid = bytes_of_sx cid; cn_uflag = bool_of_sx uf; cn_pflag = bool_of_sx pf;
-      cn_user = bytes_of_sx u; cn_pass = bytes_of_sx p; cn_authmethod = opt_bytes am; cn_authdata = opt_bytes ad }
+    { ac_version = n_of_sx v; ac_cid = bytes_of_sx cid; ac_uflag = bool_of_sx uf; ac_pflag = bool_of_sx pf;
+      ac_user = bytes_of_sx u; ac_pass = bytes_of_sx p; ac_authmethod = opt_bytes am; ac_authdata = opt_bytes ad }
   | _ -> failwith "connect"
 
 let account_of_sx x = match Sexp.list x with [u; h] -> (bytes_of_sx u, bytes_of_sx h) | _ -> failwith "account"
@@ -125,7 +125,8 @@ let op_of_sx (x : Sexp.t) (iout : Sexp.t option) : aop = match Sexp.list x with
   | [Sexp.A "delete"; u] -> ODelete (bytes_of_sx u)
   | [Sexp.A "get"; u] -> OGet (bytes_of_sx u)
   | [Sexp.A "list"; pg; sz] -> OList (n_of_sx pg, n_of_sx sz)
-  | [Sexp.A "chdir"; d; al] -> OChdir (n_of_sx d, bool_of_sx al)
+  | [Sexp.A "chdir"; d; _] -> OChdir (n_of_sx d)      (* a live or a deleted directory: no matter *)
+  | [Sexp.A "break"; b] -> OBreak (bool_of_sx b)
   | [Sexp.A "validate"; u; p] -> OValidate (bytes_of_sx u, bytes_of_sx p)
   | [Sexp.A "auth"; pre; v; c] -> OAuth (authres_of_sx pre, n_of_sx v, connect_of_sx c)
   | [Sexp.A "reload"; _] -> OReload
@@ -184,17 +185,15 @@ let run_auth (input : Sexp.t) (impl : Sexp.t) : Verdict.t =
   let failing =
     match iouts, (match init with None -> Some [] | Some d -> if file_wf d then Some d else None) with
     | Some outs, Some m0 ->
-      let rec go m ops outs = match ops, outs with
-        | o :: ops', x :: outs' -> (match o_step h bv alg m o x with Some m' -> go m' ops' outs' | None -> Some o)
+      let rec go av m ops outs = match ops, outs with
+        | o :: ops', x :: outs' ->
+          (match o_step h bv alg av m o x with Some m' -> go (o_avail av o) m' ops' outs' | None -> Some o)
         | _, _ -> None in
-      go m0 ops outs
+      go true m0 ops outs
     | _, _ -> None in
-  let kf =
-    if oracle then "-"
-    else match failing with
-      | Some (OFile | OReload) when kf_pwfile_cwd h bv cfg init cwd ops -> "kf_pwfile_cwd"
-      | Some (OAuth (_, v, _)) when not (known_version v) -> "kf_unknown_version"
-      | _ -> "-" in
+  (* no open known finding at component level (kf_pwfile_cwd: repaired in 54a09b0,
+     kf_unknown_version: repaired in bb4907e) *)
+  let kf = "-" in
   let outs_l = match iouts with Some l -> l | None -> [] in
   let acc = List.exists (function XBool true | XAuth HkOk -> true | _ -> false) outs_l in
   let rej = List.exists (function XBool false | XAuth (HkErr _) -> true | _ -> false) outs_l in
@@ -203,7 +202,7 @@ let run_auth (input : Sexp.t) (impl : Sexp.t) : Verdict.t =
   let rollback = List.exists (fun x -> x = XErr) outs_l in
   let long = List.exists (fun o -> match o with
       | OUpdate (u, p, _) | OValidate (u, p) -> List.length u > 1000 || List.length p > 1000
-      | OAuth (_, _, c) -> List.length c.cn_user > 1000 || List.length c.cn_pass > 1000
+      | OAuth (_, _, c) -> List.length c.ac_user > 1000 || List.length c.ac_pass > 1000
       | _ -> false) ops in
   { Verdict.agree = (mouts = iouts); oracle; kf;
     nontrivial = upd && acc && rej;
@@ -215,7 +214,7 @@ let run_auth (input : Sexp.t) (impl : Sexp.t) : Verdict.t =
         | Some OFile -> "file_differs_from_accounts" | Some OReload -> "restart_loads_other_accounts"
         | Some (OAuth _) -> "hook_decision" | Some (OValidate _) -> "validate_decision"
         | Some (OUpdate _) -> "update" | Some (ODelete _) -> "delete" | Some (OGet _) -> "get" | Some (OList _) -> "list"
-        | Some (OChdir _) -> "chdir" | None -> "start") }
+        | Some (OChdir _) -> "chdir" | Some (OBreak _) -> "break" | None -> "start") }
 
 (* ---- suite authwire ---- *)
 let strs_of k x = List.map str_of_sx (Sexp.field k x)
@@ -260,8 +259,8 @@ let run_authwire (input : Sexp.t) (impl : Sexp.t) : Verdict.t =
           | Sexp.L [Sexp.A "connack"; c] -> Some (int_of_sx c)
           | _ -> None in
         let acc = (code = Some 0) in
-        if acc then (accepted := string_of_bytes c.cn_cid :: !accepted; incr n_ok) else incr n_rej;
-        let plain_connect = (not pre) && known_version c.cn_version in
+        if acc then (accepted := string_of_bytes c.ac_cid :: !accepted; incr n_ok) else incr n_rej;
+        let plain_connect = (not pre) && known_version c.ac_version in
         if plain_connect then begin
           let m = broker_connect h bv allow0 alg (!s).s_tab c in
           mouts := (match m with None -> Sexp.A "accept" | Some e -> Sexp.L [Sexp.A "refuse"; sx_n e]) :: !mouts;
@@ -298,7 +297,7 @@ let run_authwire (input : Sexp.t) (impl : Sexp.t) : Verdict.t =
   let live = (try strs_of "retained" fin = ["ok/t"] with _ -> false) in
   if not inert then (agree := false; oracle := false; incr fail_other);
   if not live then agree := false;
-  let kf = if !oracle then "-" else if !fail_other = 0 && !fail_am > 0 then "kf_authmethod_present" else "-" in
+  let kf = if !oracle || not !agree then "-" else if !fail_other = 0 && !fail_am > 0 then "kf_authmethod_present" else "-" in
   { Verdict.agree = !agree; oracle = !oracle; kf;
     nontrivial = !n_ok > 0 && !n_rej > 0 && !n_stray > 0;
     cls = Printf.sprintf "%s_ok%d_rej%d%s%s%s%s%s" (alg_name alg) (min !n_ok 3) (min !n_rej 3)
